@@ -154,6 +154,10 @@ def stepLine (env : Env) (line : String) : Env × Option String :=
     match deriveOfName dv with
     | none => (env, some "bad-line")
     | some dv => (env, some (String.intercalate "," ((allowedRefs dv).map Ref.show)))
+  | "discheader" :: toks =>
+    match runDiscHeader toks with
+    | some s => (env, some s)
+    | none => (env, some "bad-line")
   | ["snakify", id] =>
     match decodeStr id with
     | none => (env, some "bad-line")
